@@ -28,7 +28,8 @@ ReadOf(e) == [what |-> e.kind, lo |-> e.lo, hi |-> e.hi, wit |-> e.wit, i |-> e.
               ids |-> e.ids, insts |-> e.insts, pt |-> TabOf(e.pt), ptn |-> Len(e.pt), err |-> e.err]
 TrCRead ==
   /\ IsEvent("CRead") /\ up /\ Stutter
-  /\ obs' = [kind |-> "CRead", r |-> ReadOf(Ev), g |-> Ev.g, seq |-> Ev.seq]
+  /\ obs' = [kind |-> "CRead", r |-> ReadOf(Ev), g |-> Ev.g, seq |-> Ev.seq,
+             pg |-> IF obs.kind = "CRead" THEN obs.g ELSE None, pseq |-> IF obs.kind = "CRead" THEN obs.seq ELSE None]
   /\ UNCHANGED <<hi, saved>>
 
 CNext == TNext \/ TrCPut \/ TrCRead
@@ -56,6 +57,8 @@ EvtOK(a, r) == CASE r.what = "SubPoll" -> (r.err = "empty" => LinEmptyPoll(a, r)
 ConcEventuallyLatest == Judge({"SubPoll", "SubFinal"}, EvtOK)
 
 Conf_ConcBracket == obs.kind = "CRead" => Sane
+\* the reads of one goroutine are recorded in its program order (per-goroutine sequence numbers increase)
+Conf_ConcSeq == obs.kind = "CRead" => (obs.g = obs.pg => obs.seq > obs.pseq)
 Conf_ConcPutVerdict == obs.kind = "CPut" => (obs.ok <=> obs.verdict \in {"ok", "stale"})
 Conf_ConcPTAdm == Judge({"GetPT"}, LinPTAdm)
 Conf_ConcGetAdm == Judge({"Get"}, LinGetAdm)
@@ -65,7 +68,7 @@ Conf_ConcRecvStrict == Judge({"SubRecv", "SubPoll"}, RecvStrictOK)
 
 CClauses == Clauses \cup {"C09_ConcAdmission", "C09_WritersNeverBlock", "C09_ConcLatest", "C09_ConcSubscribe", "C09_ConcPowerTable",
                           "C09_ConcGet", "C09_ConcRange", "C09_ConcRecv", "C09_SubscribersEventuallyLatest",
-                          "Conf_ConcBracket", "Conf_ConcPutVerdict", "Conf_ConcPTAdm", "Conf_ConcGetAdm", "Conf_ConcRangeAdm",
+                          "Conf_ConcBracket", "Conf_ConcSeq", "Conf_ConcPutVerdict", "Conf_ConcPTAdm", "Conf_ConcGetAdm", "Conf_ConcRangeAdm",
                           "Conf_ConcRecvStrict"}
 CHolds(c) == IF c \in Clauses THEN Holds(c)
              ELSE CASE c = "C09_ConcAdmission" -> ConcAdmission [] c = "C09_WritersNeverBlock" -> ConcWritersNeverBlock
@@ -73,7 +76,7 @@ CHolds(c) == IF c \in Clauses THEN Holds(c)
                     [] c = "C09_ConcPowerTable" -> ConcPowerTable [] c = "C09_ConcGet" -> ConcGet
                     [] c = "C09_ConcRange" -> ConcRange [] c = "C09_ConcRecv" -> ConcRecv
                     [] c = "C09_SubscribersEventuallyLatest" -> ConcEventuallyLatest
-                    [] c = "Conf_ConcBracket" -> Conf_ConcBracket [] c = "Conf_ConcPutVerdict" -> Conf_ConcPutVerdict
+                    [] c = "Conf_ConcBracket" -> Conf_ConcBracket [] c = "Conf_ConcSeq" -> Conf_ConcSeq [] c = "Conf_ConcPutVerdict" -> Conf_ConcPutVerdict
                     [] c = "Conf_ConcPTAdm" -> Conf_ConcPTAdm [] c = "Conf_ConcGetAdm" -> Conf_ConcGetAdm
                     [] c = "Conf_ConcRangeAdm" -> Conf_ConcRangeAdm [] c = "Conf_ConcRecvStrict" -> Conf_ConcRecvStrict
 CStep == /\ CNext
